@@ -73,6 +73,7 @@ static CO_ERR COTPdoEventWrite(struct CO_OBJ_T *obj, struct CO_NODE_T *node, voi
     uint16_t  num;
     int16_t   tid;
     CO_ERR    err;
+    uint8_t   pend;
 
     /* update value in object entry */
     err = uint16->Write(obj, node, buffer, size);
@@ -92,12 +93,22 @@ static CO_ERR COTPdoEventWrite(struct CO_OBJ_T *obj, struct CO_NODE_T *node, voi
         if (tid < 0) {
             return (CO_ERR_TYPE_WR);
         }
+        pdo->EvTmr = -1;
     }
     if (pdo->InTmr >= 0) {
         tid = COTmrDelete(tmr, pdo->InTmr);
         if (tid < 0) {
             return (CO_ERR_TYPE_WR);
         }
+        pdo->InTmr  = -1;
+        pdo->Flags &= ~CO_TPDO_FLG__I_;
+    }
+
+    /* identify a waiting transmission, which was delayed by the inhibit time */
+    pend = 0;
+    if ((pdo->Flags & CO_TPDO_FLG___E) != 0) {
+        pdo->Flags &= ~CO_TPDO_FLG___E;
+        pend = 1;
     }
 
     /* start new timer for event when TPDO COB-ID is enabled */
@@ -108,7 +119,10 @@ static CO_ERR COTPdoEventWrite(struct CO_OBJ_T *obj, struct CO_NODE_T *node, voi
         nmt = &node->Nmt;
         if (nmt->Mode == CO_OPERATIONAL) {
             pdo->Event = COTmrGetTicks(tmr, cycTime, CO_TMR_UNIT_1MS);
-            if (pdo->Event > 0) {
+            if (pend != 0) {
+                /* send the waiting transmission (restarts the timers) */
+                COTPdoTx(pdo);
+            } else if (pdo->Event > 0) {
                 pdo->EvTmr = COTmrCreate(tmr,
                                         pdo->Event,
                                         0,
